@@ -19,26 +19,46 @@ META = {
 }
 M = 0x600000000000          # address of the table object (raw-memory tier, fully symbolic content)
 OFF_SLOTS = 256
-OFF_CNT = 256 + 16 * 256
+MAP_SIZE = 256 + 16 * 256     # size of the std::map model object
+LAY = {"map": 0, "cnt": MAP_SIZE}     # offsets of the table's two private members; set by detect_layout() on every run
+
+
+def detect_layout(ctx):
+    """The table's members are private and may be declared in either order (or renamed): find out where the map model and
+    the cursor live by constructing one table and looking at its image - the map model has present[0] == 1 followed by 255
+    zero flags, the cursor holds 1. No name or declaration order of a private member is assumed."""
+    sz = ctx.run("k_apm_sizeof", [])
+    size = symex.simp(sz[0].ret).as_long() if len(sz) == 1 else -1
+    paths = ctx.run("k_apm_ctor", [BV(M, 64)])
+    if len(paths) != 1 or paths[0].status != "ret" or size != MAP_SIZE + 8:
+        raise Inconclusive("unexpected shape of app_pointer_map over the map model (size %d)" % size)
+    q = paths[0]
+    byte = lambda off: symex.simp(z3.Select(q.mem, BV(M + off, 64)))
+    conc1 = lambda off, v: z3.is_bv_value(byte(off)) and byte(off).as_long() == v
+    for mo, co in ((0, MAP_SIZE), (8, 0)):
+        if conc1(mo, 1) and all(conc1(mo + j, 0) for j in range(1, 256)) and conc1(co, 1):
+            LAY["map"], LAY["cnt"] = mo, co
+            return
+    raise Inconclusive("could not locate the map and the cursor inside app_pointer_map")
 
 
 def pres(mem, i):
-    return z3.Select(mem, BV(M, 64) + zext(i, 64))
+    return z3.Select(mem, BV(M + LAY["map"], 64) + zext(i, 64))
 
 
 def val(mem, i):
-    a = BV(M + OFF_SLOTS + 8, 64) + zext(i, 64) * 16
+    a = BV(M + LAY["map"] + OFF_SLOTS + 8, 64) + zext(i, 64) * 16
     return z3.Concat(*[z3.Select(mem, a + k) for k in reversed(range(8))])
 
 
 def cnt(mem):
-    return z3.Select(mem, BV(M + OFF_CNT, 64))
+    return z3.Select(mem, BV(M + LAY["cnt"], 64))
 
 
 def invariant(mem, limit):
     cs = [pres(mem, BV(0, 8)) == 1, z3.UGE(cnt(mem), 1), z3.ULE(zext(cnt(mem), 16), zext(limit, 16) + 1)]
     for j in range(256):
-        pj = z3.Select(mem, BV(M + j, 64))
+        pj = z3.Select(mem, BV(M + LAY["map"] + j, 64))
         cs.append(z3.ULE(pj, 1))
         if j > 0:
             cs.append(z3.Implies(z3.UGT(BV(j, 8), limit), pj == 0))
@@ -55,28 +75,25 @@ def invariant_any_limit(mem):
     """what every history guarantees when the limit itself may change between calls (the table outlives a sandbox
     incarnation; a re-created sandbox may be smaller): key 0 is present, presence flags are 0/1 - the cursor and the
     tokens of still-living owners may lie above the current limit"""
-    return z3.And(pres(mem, BV(0, 8)) == 1, *[z3.ULE(z3.Select(mem, BV(M + j, 64)), 1) for j in range(256)])
+    return z3.And(pres(mem, BV(0, 8)) == 1, *[z3.ULE(z3.Select(mem, BV(M + LAY["map"] + j, 64)), 1) for j in range(256)])
 
 
 def check_apm(ctx, op, L, shrunk=False):
+    detect_layout(ctx)
     eng = ctx.eng
     mem0 = eng.initial_memory()
     limit = ctx.sym("limit", 8)
     if shrunk:
         ctx.assume(z3.UGE(limit, 1), z3.ULE(limit, L), invariant_any_limit(mem0), z3.ULE(cnt(mem0), 2 * L))
         for jj in range(2 * L + 1, 256):
-            ctx.assume(z3.Select(mem0, BV(M + jj, 64)) == 0)     # bound: earlier limits were at most 2L
+            ctx.assume(z3.Select(mem0, BV(M + LAY["map"] + jj, 64)) == 0)     # bound: earlier limits were at most 2L
     else:
         ctx.assume(z3.UGE(limit, 1), z3.ULE(limit, L), invariant(mem0, limit))
     j = ctx.sym("j", 8)
-    # layout self-check of the model
-    sz = ctx.run("k_apm_sizeof", [])
-    if not (len(sz) == 1 and symex.simp(sz[0].ret).as_long() == OFF_CNT + 8):
-        raise Inconclusive("unexpected layout of app_pointer_map over the map model")
     if op == "get":
         ptr = ctx.sym("ptr", 64)
         paths = ctx.run("k_apm_get", [BV(M, 64), ptr, limit])
-        free = z3.Or(*[z3.And(z3.ULE(BV(t, 8), limit), z3.Select(mem0, BV(M + t, 64)) == 0) for t in range(1, L + 1)])
+        free = z3.Or(*[z3.And(z3.ULE(BV(t, 8), limit), z3.Select(mem0, BV(M + LAY["map"] + t, 64)) == 0) for t in range(1, L + 1)])
         for q in paths:
             if q.status == "ret":
                 tok = z3.Extract(7, 0, q.ret)
@@ -118,6 +135,7 @@ def check_apm(ctx, op, L, shrunk=False):
 
 
 def check_ctor(ctx):
+    detect_layout(ctx)
     paths = ctx.run("k_apm_ctor", [BV(M, 64)])
     j = ctx.sym("j", 8)
     for q in paths:
@@ -350,12 +368,13 @@ def check_refused_exc(ctx):
 def check_apm_max(ctx, cursor):
     """limit = the largest value of the token type (255): the table is full except for at most one symbolic slot;
     the cursor is a given concrete position (0 = wrapped after issuing token 255)"""
+    detect_layout(ctx)
     eng = ctx.eng
     mem0 = eng.initial_memory()
     t = ctx.sym("free", 8)                      # the one free token, or 0 for "none"
     cs = [pres(mem0, BV(0, 8)) == 1, cnt(mem0) == cursor]
     for jj in range(1, 256):
-        cs.append(z3.Select(mem0, BV(M + jj, 64)) == z3.If(t == jj, BV(0, 8), BV(1, 8)))
+        cs.append(z3.Select(mem0, BV(M + LAY["map"] + jj, 64)) == z3.If(t == jj, BV(0, 8), BV(1, 8)))
     ctx.assume(*cs)
     ptr = ctx.sym("ptr", 64)
     paths = ctx.run("k_apm_get", [BV(M, 64), ptr, BV(255, 8)])
